@@ -365,6 +365,20 @@ func (r *Raft) restore() error {
 		if err := file.Close(); err != nil {
 			return fmt.Errorf("could not close snapshot file: %w", err)
 		}
+
+		// The node may have been stopped after the snapshot was written but before the log was
+		// brought in line with it. Complete the compaction of the log in this case - the node
+		// would reject the entries that follow the snapshot forever otherwise.
+		if firstIndex := r.log.LastIndex() - uint64(r.log.Size()); firstIndex < r.lastIncludedIndex {
+			if entry, _ := r.log.GetEntry(r.lastIncludedIndex); entry != nil &&
+				entry.Term == r.lastIncludedTerm {
+				if err := r.log.Compact(r.lastIncludedIndex); err != nil {
+					return fmt.Errorf("could not compact log: %w", err)
+				}
+			} else if err := r.log.DiscardEntries(r.lastIncludedIndex, r.lastIncludedTerm); err != nil {
+				return fmt.Errorf("could not discard log entries: %w", err)
+			}
+		}
 	}
 
 	// Use the most recent configuration from the log.
